@@ -884,6 +884,12 @@ def _tarExtractFilter(member, path):
     if os.path.commonpath([full_name, path]) != path:
         raise BuildError(f"Refusing to extract '{name}' from tar file. File is outside of destination directory.")
 
+    # Hard links must not reference anything outside of the destination either
+    if member.islnk():
+        link_target = os.path.realpath(os.path.join(path, member.linkname))
+        if os.path.commonpath([link_target, path]) != path:
+            raise BuildError(f"Refusing to extract hard link '{name}' -> '{member.linkname}' from tar file. Target is outside of destination directory.")
+
     return member
 
 def tarfileOpen(*args, **kwargs):
